@@ -10,4 +10,6 @@ import Lace.Model.Air
 import Lace.Model.Parser
 import Lace.Model.Assemble
 import Lace.Props.C02
+import Lace.Proofs.AsmLex
+import Lace.Proofs.AsmParse
 import Lace.Props.C05
